@@ -86,3 +86,10 @@ Theorem if_modified_since_does_not_depend_on_spelling : forall t, in_range t ->
   ((1461 <= t / 86400 < 37985)%Z -> if_modified_since 123 (fmt_850 t) t = false).
 Proof. exact ims_independent_of_spelling. Qed.
 Print Assumptions if_modified_since_does_not_depend_on_spelling.
+
+(* a value with bytes after the date is not an HTTP-date: the field is ignored ("modified"), whatever date its beginning spells
+   (RFC 9110 13.1.3; that the whole value must be consumed is re-read from http_date.c on every run) *)
+Theorem if_modified_since_ignores_a_date_followed_by_bytes : forall yc s lm,
+  full_match s = false -> if_modified_since yc s lm = true.
+Proof. intros yc s lm. apply trailing_bytes_void_the_date. exact ims_whole_value_as_modelled. Qed.
+Print Assumptions if_modified_since_ignores_a_date_followed_by_bytes.
